@@ -43,7 +43,10 @@ class RestreamedBytesIO(object):
         datalen = len(data)
         while len(self.wbuffer) >= self.encoderunit:
             data, self.wbuffer = self.wbuffer[:self.encoderunit], self.wbuffer[self.encoderunit:]
-            self.substream.write(self.encoder(data))
+            encoded = self.encoder(data)
+            written = self.substream.write(encoded)
+            if written != len(encoded):
+                raise IOError("could not write all bytes, expected %d, written %r" % (len(encoded), written))
         self.sincereadwritten += datalen
         return datalen
 
